@@ -151,8 +151,14 @@ def data_streams(ctx):
         # the same stream with the client waiting (until the server blocks for input) behind one of the first line ends:
         # whether more input is already there when a line is handled must not matter (seeded change c05-m10 threw the
         # pending input away after an over-long line); a cut list that starts with 0 means "wait behind the first segment"
+        # ... but only behind line ends in front of whatever can end the DATA phase (a dot line behind any CR or LF):
+        # behind the end of DATA a client that does not wait commits a pipelining violation and is answered 503 from
+        # then on, which a client that waits is not - a difference the protocol wants, not one of segmentation
+        import re as _re
+        mdot = _re.search(rb'[\r\n]\.\r\n', b'\n' + bytes(body))
+        dot_at = mdot.start() if mdot else n
         ends = [i + 1 for i, c in enumerate(sh) if c == LF][:3]
-        cs += [[0, e] for e in ends if 0 < e < n]
+        cs += [[0, e] for e in ends if 0 < e <= dot_at and e < n]
         out.append((body, cs))
     return out
 
